@@ -202,6 +202,37 @@ def run_calibration(prog, rep):
     ap = prog.fn('nix::util::applyPolynomial')
     callers = sorted(set(c[0].q for c in prog.callers().get(ap.usr, [])))
     rule.check(callers == ['nix::DataArray::ioRead'], 'applyPolynomial|who-calls', rep.where(ap), ap.q, 'applyPolynomial is called only from DataArray::ioRead', 'applyPolynomial is also called from %s: raw/stored values would be transformed' % callers)
+    # convertData: every normally returning path converts (source memtype -> destination memtype, nelms elements, in the buffer),
+    # except where the path established source == destination or nelms == 0
+    cvf = [x for x in prog.funcs.values() if x.name == 'convertData' and x.body is not None and prog.rel(x.file).endswith('DataArray.cpp')]
+    if len(cvf) != 1:
+        raise AnalysisBroken('R-CALIB: convertData not found')
+    cvf = cvf[0]
+    pn = [p['name'] for p in cvf.params]
+    itc = GenericInterp(prog, watch=lambda n: (n.callee or {}).get('name') in ('H5Tconvert', 'check', 'data_type_to_h5_memtype'))
+    cprobs = []
+    nconv = 0
+    for assign, out, log, fields in itc.enumerate(cvf, this=None, args=[(x,) for x in pn]):
+        if out[0] != 'ret':
+            continue
+        cv = [l for l in log if l[0] == 'H5Tconvert']
+        if not cv:
+            same = [v for k, v in assign.items() if k[0] == 'cmp' and k[1] == '==' and set(k[2:4]) == {(pn[0],), (pn[1],)}]
+            zero = [v for k, v in assign.items() if k[0] == 'cmp' and k[1] == '==' and (pn[3],) in k[2:4] and 0 in k[2:4]]
+            if (same and same[0]) or (zero and zero[0]):
+                continue
+            cprobs.append('a path returns without H5Tconvert although source and destination type may differ (taken when %s)' % _cond_text(assign))
+            continue
+        nconv += 1
+        c0 = cv[0]
+        want = (('call', 'h5id', ('call', 'nix::hdf5::data_type_to_h5_memtype', (pn[0],))), ('call', 'h5id', ('call', 'nix::hdf5::data_type_to_h5_memtype', (pn[1],))), (pn[3],), (pn[2],))
+        if tuple(c0[1:5]) != want:
+            cprobs.append('H5Tconvert is not (memtype(source), memtype(destination), nelms, data): %r' % (c0[1:5],))
+        if not [l for l in log if l[0] == 'check']:
+            cprobs.append('the result of H5Tconvert is not checked')
+    if not nconv:
+        cprobs.append('no converting path')
+    rule.check(not cprobs, 'convertData|converts', rep.where(cvf), cvf.q, 'every returning path converts nelms elements from memtype(source) to memtype(destination) in place and checks the result', '; '.join(sorted(set(cprobs))[:2]))
     io = prog.fn('nix::DataArray::ioRead')
     it = GenericInterp(prog, watch=lambda n: (n.callee or {}).get('name') in ('getDataDirect', 'applyPolynomial', 'convertData', 'memcpy'))
     res = it.enumerate(io, this='THIS', args=[('dtype',), ('data',), ('count',), ('offset',)])
